@@ -530,6 +530,27 @@ def docstring(
     )
 
 
+def _same_module(src0, src1):
+    """
+    Whether two sources are the same program, formatting aside
+
+    :param src0: Python source
+    :type src0: ```str```
+
+    :param src1: Python source
+    :type src1: ```str```
+
+    :returns: True iff both parse to the same AST
+    :rtype: ```bool```
+    """
+    if src0 == src1:
+        return True
+    try:
+        return ast.dump(ast.parse(src0)) == ast.dump(ast.parse(src1))
+    except SyntaxError:
+        return False
+
+
 def file(node, filename, mode="a", skip_black=False):
     """
     Convert AST to a file
@@ -572,8 +593,8 @@ def file(node, filename, mode="a", skip_black=False):
         if existing and not existing.endswith("\n"):
             existing += "\n"  # do not glue the addition onto an unterminated last line
         src = existing + src
-    elif existing == src:
-        return False  # already up to date: leave the file alone
+    elif existing is not None and _same_module(existing, src):
+        return False  # already up to date (formatting aside): leave the file alone
     tmp_filename = "{}.doctrans.tmp".format(filename)
     try:
         with open(tmp_filename, "wt") as f:
